@@ -358,7 +358,7 @@ func spellSites(toks []stok, small bool) []site {
 }
 
 // wsAltsLong: long gaps (a condition wrapped onto a deeply indented continuation line)
-var wsAltsLong = []string{strings.Repeat(" ", 40), "\n" + strings.Repeat("\t", 12) + strings.Repeat(" ", 30), strings.Repeat("\n", 70)}
+var wsAltsLong = []string{strings.Repeat(" ", 40), "\n" + strings.Repeat("\t", 12) + strings.Repeat(" ", 30), strings.Repeat("\n", 70), strings.Repeat(" ", 300), strings.Repeat(" \n", 2100)}
 
 // spellSitesMode: mode 0 full whitespace alphabet, 1 reduced, 2 long gaps
 func spellSitesMode(toks []stok, mode int) []site {
